@@ -275,6 +275,8 @@ func faultExec(run *ev.Run, prop string, u *uni.U, gen *wh.CPGen, logs []wh.LogC
 				} else if string(got) != pre.ByID[op.Req.LogID] {
 					run.Report("read-wrong-bytes", fmt.Sprintf("history %s faults %v: GetCheckpoint returned bytes that are not the stored checkpoint", h.Name, c.Trace()), replay(nil))
 				}
+			} else if faulted && status.Code(err) == codes.NotFound && !op.Logs && pre.ByID[op.Req.LogID] != "" {
+				run.Report("read-fault-reported-as-not-found store="+storeKind(store), fmt.Sprintf("history %s faults %v: a failing read of a log that holds a checkpoint was answered 'not found' (callers then treat the log as having no checkpoint)", h.Name, c.Trace()), replay(nil))
 			} else if !faulted {
 				if !(status.Code(err) == codes.NotFound && pre.ByID[op.Req.LogID] == "" && !op.Logs) {
 					run.Report("read-failed-without-fault", fmt.Sprintf("history %s: read %s failed without any fault: %v", h.Name, op.Label, err), replay(nil))
